@@ -159,3 +159,64 @@ MODELS = {
     "gen_secp": lambda tier, wd, seed=1: model_gen("secp", Q(tier, 2, 3), ALL_CLASSES, Q(tier, 6000, 60000), seed, wd),
     "gen_ed": lambda tier, wd, seed=1: model_gen("ed", 3, Q(tier, CORE_CLASSES, ALL_CLASSES), Q(tier, 4000, 60000), seed, wd),
 }
+
+
+# ------------------------------------------------------------------------------------------ small exhaustive models
+def simple_model(tla, cfg_text, name, wd, prefixes=()):
+    cfg = write_cfg(name + ".cfg", cfg_text)
+    res = run.tlc_model(cfg, tla, os.path.join(wd, "mc_" + name), workers=8, capture_prefixes=prefixes)
+    stats = {"name": name, "states": res["states"], "transitions": res["transitions"], "ok": res["ok"], "wall_s": round(res["wall_s"], 1),
+             "tail": "\n".join(res["out"].splitlines()[-25:]) if not res["ok"] else ""}
+    return stats, res["captured"]
+
+
+def model_nodeid(tier, wd, seed=1):
+    stats, cap = simple_model("MC_NodeId.tla", "SPECIFICATION Spec\nCONSTANTS\n  MaxSlice = 64\n  MaxHex = 70\n  Emit = TRUE\nINVARIANTS Props EmitCase\nCHECK_DEADLOCK FALSE\n",
+                              "MC_NodeId", wd, ("CASE ",))
+    cases = list(dict.fromkeys(c[5:] for c in cap))
+    stats["cases_emitted"] = len(cases)
+    cases = pick(cases, Q(tier, 6000, None), seed)
+    stats["cases_replayed"] = len(cases)
+    steps = []
+    for c in cases:
+        t = json.loads(c)
+        if t["kind"] == "parse":
+            steps.append({"op": "nodeid", "kind": "parse", "bytes": [(i * 5 + 1) % 256 for i in range(t["len"])], "tag": "mc_parse"})
+        else:
+            steps.append({"op": "nodeid", "kind": "json", "text": t["text"], "tag": "mc_json"})
+    return {"stats": stats, "scripts": [{"sid": "mcn-%d" % i, "steps": steps[i:i + 1000]} for i in range(0, len(steps), 1000)]}
+
+
+def model_key(tier, wd, seed=1):
+    stats, cap = simple_model("MC_Key.tla", "SPECIFICATION Spec\nCONSTANTS\n  Emit = TRUE\nINVARIANTS Props EmitCase\nCHECK_DEADLOCK FALSE\n", "MC_Key", wd, ("CASE ",))
+    cases = list(dict.fromkeys(c[5:] for c in cap))
+    stats["cases_emitted"] = stats["cases_replayed"] = len(cases)
+    steps = []
+    for c in cases:
+        t = json.loads(c)
+        for scheme in (("secp", "ed") if t["secp"] else ("ed", "secp")):
+            steps.append({"op": "key_import", "scheme": scheme, "bytes": t["bytes"], "tag": "mc_key"})
+    return {"stats": stats, "scripts": [{"sid": "mck-0", "steps": steps}]}
+
+
+def model_text(tier, wd, seed=1):
+    n = Q(tier, 5, 6)
+    stats, _ = simple_model("MC_Text.tla", "SPECIFICATION Spec\nCONSTANTS\n  MaxBytes = %d\n  MaxChars = %d\nINVARIANTS RoundTrip Injective\nCHECK_DEADLOCK FALSE\n" % (n, n),
+                            "MC_Text", wd)
+    stats["constants"] = {"MaxBytes": n, "MaxChars": n}
+    return {"stats": stats, "scripts": []}
+
+
+def model_typed(tier, wd, seed=1):
+    stats, _ = simple_model("MC_Typed.tla", "SPECIFICATION Spec\nINVARIANTS PortProps ComboProps\nCHECK_DEADLOCK FALSE\n", "MC_Typed", wd)
+    return {"stats": stats, "scripts": []}
+
+
+def model_stream(tier, wd, seed=1):
+    s2 = "{0, 1, 127, 128, 183, 184, 192, 247, 248, 255, 256}" if tier == "quick" else "0..256"
+    stats, _ = simple_model("MC_Stream.tla", "SPECIFICATION Spec\nCONSTANTS\n  S2 = %s\nINVARIANTS PrefixLocal Sizes\nCHECK_DEADLOCK FALSE\n" % s2, "MC_Stream", wd)
+    return {"stats": stats, "scripts": []}
+
+
+MODELS.update({"nodeid": model_nodeid, "key": model_key, "text": model_text, "typed": model_typed, "stream": model_stream,
+               "hist_k256_deep": lambda tier, wd, seed=1: model_hist("k256", Q(tier, 2, 3), Q(tier, 1500, 30000), seed, wd)})
